@@ -407,6 +407,25 @@ func c14Run(c *engine.Ctx) {
 			}
 		}
 	}
+	// slivers: valid polygons whose area is tiny relative to their perimeter (the zero-area
+	// fallback must not be taken for them)
+	for _, N := range []float64{10, 1000, 1e5, 1 << 20, 1 << 26} {
+		for _, tri := range [][]ref.P2{
+			{{X: 0, Y: 0}, {X: N, Y: 1}, {X: N - 1, Y: 1}},
+			{{X: 0, Y: 0}, {X: N, Y: 0}, {X: N, Y: 1}},
+			{{X: 3, Y: 7}, {X: 3 + N, Y: 7 + N}, {X: 3 + N - 1, Y: 7 + N}},
+		} {
+			for k := range tri {
+				for _, rev := range []bool{false, true} {
+					c.Count("slivers", 1)
+					c14Exec(c, c14Case{Mode: "polygons", Layout: layouts[k%4], Rings: [][]ref.F{ringF(rot(tri, k, rev), 0)}, Counts: []int{1}})
+					// as a multipolygon member next to a unit square far away
+					sq := []ref.P2{{X: -10, Y: -10}, {X: -9, Y: -10}, {X: -9, Y: -9}, {X: -10, Y: -9}}
+					c14Exec(c, c14Case{Mode: "polygons", Layout: geom.XY, Rings: [][]ref.F{ringF(rot(tri, k, rev), 0), ringF(rot(sq, 0, !rev), 0)}, Counts: []int{1, 1}})
+				}
+			}
+		}
+	}
 	// polygons with holes on a larger grid
 	n := 5
 	if c.Thorough() {
